@@ -27,8 +27,8 @@ def folderTree : List (String × String × String × String) := [
   ("rm", "file", "self._file_request_manager", "self._file_exists + self._file_not_deleted")
 ]
 
+-- round 7, second shift: `_file_action` left the text pin too (lookup translated: Gen hFileActionTarget; dispatch read structurally)
 def fsHandlers : List (String × String) := [
-  ("_file_action", "def _file_action(request, context):\n    file = self.get_file(folder_name=request[0], file_name=request[1])\n    return file._request_manager(request[2:], context)")
 ]
 
 -- re-read 2026-09-26 after fix 4477cb4: each validator first answers False when the request carries fewer options than it
